@@ -193,7 +193,7 @@ def run(ctx):
             rec2 = []
             env = _env()
             env["return_fitted_pars"] = True
-            it = Interp(env, {}, {"PARS_FREE": rep, "mu": Fraction(0)}, externals={"_tmu_like": tmu_stub(rec2)})
+            it = Interp(env, {}, {"PARS_FREE": rep, "PARS_FIXED": Fraction(0), "mu": Fraction(0)}, externals={"_tmu_like": tmu_stub(rec2)})
             out = it.run(A.strip_docstring(q.node.body))
             stat = to_poly(out[0])
             if stat == want_v:
@@ -215,7 +215,8 @@ def run(ctx):
                 rec2 = []
                 env = _env()
                 env["return_fitted_pars"] = True
-                it = Interp(env, {}, {"PARS_FREE": rep, "mu": mu_rep}, externals={"_tmu_like": tmu_stub(rec2)})
+                # the conditional fit holds the POI at the tested value: its POI entry equals mu (0 for q0)
+                it = Interp(env, {}, {"PARS_FREE": rep, "PARS_FIXED": Fraction(0), "mu": mu_rep}, externals={"_tmu_like": tmu_stub(rec2)})
                 out = it.run(A.strip_docstring(z.node.body))
                 stat = to_poly(out[0])
                 if mu_rep == 0:
